@@ -350,3 +350,37 @@ Definition expand_named (mask : list bool) (first : ptuple) (items : list ptuple
 Definition named_groups (items : list ptuple) : Z := Z.of_nat (length items).
 Definition named_counters (embed : bool) (items : list ptuple) : list Z :=
   if embed then zrange 0 (length items) else [].
+
+(* ------------------------------------------------------------------------------------------ *)
+(* 7. ORM bulk INSERT with an ORM-enabled insert() statement:
+      orm/persistence.py _emit_insert_statements(.., use_orm_insert_stmt=stmt) - one executemany per
+      run of consecutive records with the same key set, results spliced in the order of execution *)
+Section Orm.
+Context {A K R : Type}.
+Variable key_eqb : K -> K -> bool.
+Variable key : A -> K.      (* (connection, set(parameter keys), has value params, has_all_pks, has_all_defaults) *)
+
+(* itertools.groupby(insert, key): maximal runs of consecutive records with equal keys *)
+Fixpoint group_by (l : list A) : list (list A) :=
+  match l with
+  | [] => []
+  | x :: r => match group_by r with
+              | (y :: g) :: gs => if key_eqb (key x) (key y) then (x :: y :: g) :: gs
+                                  else [x] :: (y :: g) :: gs
+              | [] :: gs => [x] :: gs       (* (no group is ever empty) *)
+              | [] => [[x]]
+              end
+  end.
+
+(* return_result = None
+   for each group: return_result = result if return_result is None
+                                   else return_result.splice_vertically(result)
+   None at the end = null_dml_result() *)
+Definition splice_step (acc : option (list R)) (result : list R) : option (list R) :=
+  match acc with None => Some result | Some rows => Some (rows ++ result) end.
+Definition splice_results (results : list (list R)) : option (list R) := fold_left splice_step results None.
+
+Variable exec_group : list A -> list R.   (* connection.execute(statement, multiparams).all() of one group *)
+Definition orm_bulk_insert (records : list A) : option (list R) :=
+  splice_results (map exec_group (group_by records)).
+End Orm.
